@@ -101,6 +101,20 @@ func c06Probes(thorough bool) (out [][]byte) {
 	long := &dns.Msg{}
 	long.SetQuestion(strings.Repeat("x", 60)+"."+strings.Repeat("y", 60)+"."+strings.Repeat("z", 60)+".probe.example.", dns.TypeA)
 	long.Id = 0x7778
+	// Valid queries longer than the default size of the pooled read buffers
+	// (512 octets), which have to be grown for them.
+	big := func(id uint16, pad int) []byte {
+		m := &dns.Msg{}
+		m.SetQuestion("big.probe.example.", dns.TypeA)
+		m.Id = id
+		m.SetEdns0(1232, false)
+		// Not a padding option: responses to padded queries get a padding of
+		// random length on the encrypted transports.
+		m.IsEdns0().Option = append(m.IsEdns0().Option, &dns.EDNS0_LOCAL{Code: 65001, Data: bytes.Repeat([]byte{0x5A}, pad)})
+
+		return c06Pack(m)
+	}
+	out = append(out, big(0x7779, 700), big(0x777a, 513-len(big(0, 0))))
 	out = append(out,
 		c06Pack(long),       // valid long query
 		full,                // valid minimal query
@@ -293,11 +307,22 @@ func (p *c06TCP) feed(msg []byte) string {
 	copy(framed[2:], msg)
 	conn := &c06Conn{r: bytes.NewReader(framed)}
 	wg := &sync.WaitGroup{}
-	err := p.s.acceptTCPMsg(conn, wg, &sync.Mutex{}, time.Second, syncutil.EmptySemaphore{})
+	// The connection loop of the server recovers from panics and closes the
+	// connection; so does this caller of its per-message step.
+	panicked := ""
+	err := func() (err error) {
+		defer func() {
+			if v := recover(); v != nil {
+				panicked = fmt.Sprintf(" panic=%v", v)
+			}
+		}()
+
+		return p.s.acceptTCPMsg(conn, wg, &sync.Mutex{}, time.Second, syncutil.EmptySemaphore{})
+	}()
 	wg.Wait()
 	c06Wait(p.s)
 
-	return fmt.Sprintf("err=%v decoded=%q written=%x", err != nil, p.h.seen[before:], conn.written.Bytes())
+	return fmt.Sprintf("err=%v%s decoded=%q written=%x", err != nil, panicked, p.h.seen[before:], conn.written.Bytes())
 }
 
 // c06TCPShort declares a longer frame than it carries.
@@ -310,11 +335,22 @@ func (p *c06TCPShort) feed(msg []byte) string {
 	copy(framed[2:], msg)
 	conn := &c06Conn{r: bytes.NewReader(framed)}
 	wg := &sync.WaitGroup{}
-	err := p.s.acceptTCPMsg(conn, wg, &sync.Mutex{}, time.Second, syncutil.EmptySemaphore{})
+	// The connection loop of the server recovers from panics and closes the
+	// connection; so does this caller of its per-message step.
+	panicked := ""
+	err := func() (err error) {
+		defer func() {
+			if v := recover(); v != nil {
+				panicked = fmt.Sprintf(" panic=%v", v)
+			}
+		}()
+
+		return p.s.acceptTCPMsg(conn, wg, &sync.Mutex{}, time.Second, syncutil.EmptySemaphore{})
+	}()
 	wg.Wait()
 	c06Wait(p.s)
 
-	return fmt.Sprintf("err=%v decoded=%q written=%x", err != nil, p.h.seen[before:], conn.written.Bytes())
+	return fmt.Sprintf("err=%v%s decoded=%q written=%x", err != nil, panicked, p.h.seen[before:], conn.written.Bytes())
 }
 
 type c06DoQ struct {
